@@ -80,10 +80,19 @@ impl Property for C11 {
             } else if x < 65 {
                 let n = rng.pick(&NAMES).to_string();
                 uver += 1;
-                sc.history.push(Step::Write {
-                    path: n.clone(),
-                    bytes: format!("user {} v{}\n", n, uver).into_bytes(),
-                });
+                if uver % 3 == 0 {
+                    // an edit that keeps the size (one byte changed), made
+                    // right after the build: only the mtime gives it away
+                    sc.history.push(Step::Tweak {
+                        path: n.clone(),
+                        in_place: rng.chance(1, 2),
+                    });
+                } else {
+                    sc.history.push(Step::Write {
+                        path: n.clone(),
+                        bytes: format!("user {} v{}\n", n, uver).into_bytes(),
+                    });
+                }
                 since += 1;
             } else if x < 85 {
                 let n = rng.pick(&NAMES).to_string();
@@ -266,6 +275,16 @@ impl Property for C11 {
                 let mut overwrote_generated = false;
                 for (k, st) in case.scenario.history.iter().enumerate().take(idx) {
                     match st {
+                        Step::Tweak { path, .. } if path == t => {
+                            // a no-op on an absent file; otherwise like a write
+                            if k > 0 && rec.world_after[k - 1].files.contains_key(t) {
+                                overwrote_generated = overwrote_generated
+                                    || rec.world_after[k - 1]
+                                        .files
+                                        .get(t)
+                                        .map_or(false, |f| f.owner == Owner::Redo);
+                            }
+                        }
                         Step::Write { path, .. } if path == t => {
                             overwrote_generated = k > 0
                                 && rec.world_after[k - 1]
